@@ -584,3 +584,60 @@ func segmentFMP4MuxParts(
 
 	return segmentDuration, nil
 }
+
+// segmentFMP4ValidSize returns the size of the longest prefix of a segment
+// that is made of the header and of complete parts (moof + mdat entirely inside the file).
+// Anything after it is the torn or zero-filled tail left by a crash.
+func segmentFMP4ValidSize(r io.ReadSeeker) (int64, error) {
+	fileSize, err := r.Seek(0, io.SeekEnd)
+	if err != nil {
+		return 0, err
+	}
+
+	buf := make([]byte, 8)
+
+	readHeader := func(pos int64, typ string) (int64, bool) {
+		if _, err2 := r.Seek(pos, io.SeekStart); err2 != nil {
+			return 0, false
+		}
+		if _, err2 := io.ReadFull(r, buf); err2 != nil {
+			return 0, false
+		}
+		if string(buf[4:]) != typ {
+			return 0, false
+		}
+		size := int64(uint32(buf[0])<<24 | uint32(buf[1])<<16 | uint32(buf[2])<<8 | uint32(buf[3]))
+		if size < 8 || size > (fileSize-pos) {
+			return 0, false
+		}
+		return size, true
+	}
+
+	ftypSize, ok := readHeader(0, "ftyp")
+	if !ok {
+		return 0, fmt.Errorf("ftyp box not found")
+	}
+
+	moovSize, ok := readHeader(ftypSize, "moov")
+	if !ok {
+		return 0, fmt.Errorf("moov box not found")
+	}
+
+	pos := ftypSize + moovSize
+
+	for {
+		moofSize, ok := readHeader(pos, "moof")
+		if !ok {
+			break
+		}
+
+		mdatSize, ok := readHeader(pos+moofSize, "mdat")
+		if !ok {
+			break
+		}
+
+		pos += moofSize + mdatSize
+	}
+
+	return pos, nil
+}
